@@ -129,9 +129,11 @@ cap <= 0x100_0000_0000
 is_pow2(r as nat), r >= 8, r >= cap, r <= 0x400_0000_0000
 @end
 
+# C15: the frame proofs of the read-only operations index the table with the cached bucket count; they rest on
+# "cached count == stored count" which this function establishes for an existing file
 @fn src/filedb/inner/htx.rs | impl HtxFile | open_with_params
 @opts rlimit=100
-@serves C02 C07 C12 C13
+@serves C02 C07 C12 C13 C15
 @requires
 params.htx_buf_size matches FileBufSizeParam::Size(v) ==> v <= 0x7fff_ffff,
 params.buckets_size matches HashBucketsParam::BucketsSize(x) ==> x <= 0x100_0000_0000,
